@@ -155,37 +155,60 @@ func init() {
 	reg("time.Until", func(m *Machine, fr *frame, a []Value) Value { return m.timeSub(a[0].(TimeV), m.timeNow()) })
 	reg("time.Unix", func(m *Machine, fr *frame, a []Value) Value {
 		sec, nsec := a[0].(*term.T), a[1].(*term.T)
-		return TimeV{NS: m.tb.Add(m.tb.Mul(sec, m.tb.BV(64, 1000000000)), nsec)}
+		return TimeV{NS: m.tb.Add(m.tb.Mul(sec, m.tb.BV(64, 1000000000)), nsec), Loc: 1}
 	})
 	reg("time.UnixMilli", func(m *Machine, fr *frame, a []Value) Value {
-		return TimeV{NS: m.tb.Mul(a[0].(*term.T), m.tb.BV(64, 1000000))}
+		return TimeV{NS: m.tb.Mul(a[0].(*term.T), m.tb.BV(64, 1000000)), Loc: 1}
 	})
 	reg("time.Sleep", func(m *Machine, fr *frame, a []Value) Value { m.yield(); return nil })
 	reg("time.After", func(m *Machine, fr *frame, a []Value) Value {
 		return &Chan{cap: 1, elem: fr.fn.Signature.Results().At(0).Type().Underlying().(*types.Chan).Elem()}
 	})
 	reg("time.Tick", intrinsics["time.After"])
-	ident := func(m *Machine, fr *frame, a []Value) Value { return a[0] }
-	for _, n := range []string{"UTC", "Local", "In", "Round0"} {
-		reg("(time.Time)."+n, ident)
+	setLoc := func(loc uint8) intrinsic {
+		return func(m *Machine, fr *frame, a []Value) Value {
+			t := a[0].(TimeV)
+			t.Loc = loc
+			return t
+		}
 	}
+	reg("(time.Time).UTC", setLoc(0))
+	reg("(time.Time).Local", setLoc(1))
+	reg("(time.Time).In", func(m *Machine, fr *frame, a []Value) Value {
+		t := a[0].(TimeV)
+		t.Loc = 2
+		if p, ok := a[1].(*Value); ok {
+			if p == m.timeLocGlobal("UTC") {
+				t.Loc = 0
+			} else if p == m.timeLocGlobal("Local") {
+				t.Loc = 1
+			}
+		}
+		return t
+	})
 	reg("(time.Time).Location", func(m *Machine, fr *frame, a []Value) Value { return (*Value)(nil) })
 	reg("(time.Time).Add", func(m *Machine, fr *frame, a []Value) Value {
 		t := a[0].(TimeV)
+		if t.Pre {
+			m.unsupported("arithmetic on (zero Time + duration)")
+		}
 		if t.Zero {
 			d := a[1].(*term.T)
 			if d.IsConst() && d.C == 0 {
 				return t
 			}
-			m.unsupported("Add on the zero time.Time")
+			if d.IsConst() && d.Int() > 0 {
+				return TimeV{Pre: true, Loc: t.Loc}
+			}
+			m.unsupported("Add of a symbolic or negative duration on the zero time.Time")
 		}
-		return TimeV{NS: m.tb.Add(t.NS, a[1].(*term.T))}
+		return TimeV{NS: m.tb.Add(t.NS, a[1].(*term.T)), Loc: t.Loc}
 	})
 	reg("(time.Time).Sub", func(m *Machine, fr *frame, a []Value) Value { return m.timeSub(a[0].(TimeV), a[1].(TimeV)) })
 	reg("(time.Time).Before", func(m *Machine, fr *frame, a []Value) Value { return m.timeLess(a[0].(TimeV), a[1].(TimeV)) })
 	reg("(time.Time).After", func(m *Machine, fr *frame, a []Value) Value { return m.timeLess(a[1].(TimeV), a[0].(TimeV)) })
 	reg("(time.Time).Equal", func(m *Machine, fr *frame, a []Value) Value {
-		return m.equals(nil, a[0].(TimeV), a[1].(TimeV))
+		return m.timeInstantEq(a[0].(TimeV), a[1].(TimeV))
 	})
 	reg("(time.Time).Compare", func(m *Machine, fr *frame, a []Value) Value {
 		x, y := a[0].(TimeV), a[1].(TimeV)
@@ -195,6 +218,7 @@ func init() {
 	reg("(time.Time).IsZero", func(m *Machine, fr *frame, a []Value) Value { return m.tb.BoolC(a[0].(TimeV).Zero) })
 	reg("(time.Time).UnixNano", func(m *Machine, fr *frame, a []Value) Value {
 		t := a[0].(TimeV)
+		m.noPre(t)
 		if t.Zero {
 			return m.tb.BV(64, uint64(zeroUnixNano))
 		}
@@ -202,6 +226,7 @@ func init() {
 	})
 	reg("(time.Time).Unix", func(m *Machine, fr *frame, a []Value) Value {
 		t := a[0].(TimeV)
+		m.noPre(t)
 		if t.Zero {
 			return m.tb.BV(64, negU(62135596800))
 		}
@@ -209,6 +234,7 @@ func init() {
 	})
 	reg("(time.Time).UnixMilli", func(m *Machine, fr *frame, a []Value) Value {
 		t := a[0].(TimeV)
+		m.noPre(t)
 		if t.Zero {
 			return m.tb.BV(64, negU(62135596800000))
 		}
@@ -216,6 +242,7 @@ func init() {
 	})
 	reg("(time.Time).Nanosecond", func(m *Machine, fr *frame, a []Value) Value {
 		t := a[0].(TimeV)
+		m.noPre(t)
 		if t.Zero {
 			return m.tb.BV(64, 0)
 		}
@@ -792,18 +819,65 @@ func (m *Machine) timeNow() TimeV {
 	}
 	m.addPC(m.tb.And(m.tb.SLe(lo, v), m.tb.SLe(v, m.tb.BV(64, 4000000000000000000))))
 	m.lastNow = v
-	return TimeV{NS: v}
+	return TimeV{NS: v, Loc: 1}
+}
+
+// timeInstantEq: the two values denote the same instant (Time.Equal).
+func (m *Machine) timeInstantEq(x, y TimeV) *term.T {
+	if x.Pre || y.Pre {
+		if x.Pre && y.Pre {
+			m.unsupported("comparison of two (zero Time + duration) values")
+		}
+		return m.tb.False()
+	}
+	if x.Zero || y.Zero {
+		return m.tb.BoolC(x.Zero == y.Zero)
+	}
+	return m.tb.Eq(x.NS, y.NS)
+}
+
+// timeLocGlobal is the value of the package variable time.UTC / time.Local (a pointer).
+func (m *Machine) timeLocGlobal(name string) *Value {
+	pkg := m.prog.ImportedPackage("time")
+	if pkg == nil {
+		return nil
+	}
+	g, ok := pkg.Members[name].(*ssa.Global)
+	if !ok {
+		return nil
+	}
+	p, _ := (*m.globalAddr(g)).(*Value)
+	return p
 }
 
 func (m *Machine) timeLess(x, y TimeV) *term.T {
+	if x.Pre || y.Pre {
+		if x.Pre && y.Pre {
+			m.unsupported("comparison of two (zero Time + duration) values")
+		}
+		// zero < pre < every modelled instant
+		if x.Pre {
+			return m.tb.BoolC(!y.Zero)
+		}
+		return m.tb.BoolC(x.Zero)
+	}
 	if x.Zero || y.Zero {
 		return m.tb.BoolC(x.Zero && !y.Zero)
 	}
 	return m.tb.SLt(x.NS, y.NS)
 }
 
+// noPre: t must be a modelled instant or the zero Time.
+func (m *Machine) noPre(t TimeV) {
+	if t.Pre {
+		m.unsupported("value of (zero Time + duration) needed")
+	}
+}
+
 func (m *Machine) timeSub(x, y TimeV) *term.T {
 	tb := m.tb
+	m.noPre(x)
+	m.noPre(y)
 	maxD, minD := tb.BV(64, uint64(math.MaxInt64)), tb.BV(64, uint64(1)<<63)
 	switch {
 	case x.Zero && y.Zero:
@@ -851,6 +925,7 @@ func (m *Machine) timeTrunc(t TimeV, d *term.T, round bool) Value {
 	if dv <= 0 || t.Zero {
 		return t
 	}
+	m.noPre(t)
 	K := new(big.Int).Mul(big.NewInt(62135596800), big.NewInt(1000000000))
 	c := new(big.Int).Mod(K, big.NewInt(dv)).Uint64()
 	dd := tb.BV(64, uint64(dv))
@@ -872,11 +947,11 @@ func (m *Machine) timeTrunc(t TimeV, d *term.T, round bool) Value {
 	}
 	r := tb.URem(tb.Add(fm(t.NS), tb.BV(64, c)), dd)
 	if !round {
-		return TimeV{NS: tb.Sub(t.NS, r)}
+		return TimeV{NS: tb.Sub(t.NS, r), Loc: t.Loc}
 	}
 	// lessThanHalf(r, d): r+r < d  (unsigned)
 	lth := tb.ULt(tb.Add(r, r), dd)
-	return TimeV{NS: tb.Ite(lth, tb.Sub(t.NS, r), tb.Add(t.NS, tb.Sub(dd, r)))}
+	return TimeV{NS: tb.Ite(lth, tb.Sub(t.NS, r), tb.Add(t.NS, tb.Sub(dd, r))), Loc: t.Loc}
 }
 
 // ---------- byte search kernels ----------
